@@ -72,6 +72,9 @@ def run_task(task):
             finally:
                 if tracer:
                     tracer.__exit__()
+        except solve.SolverStuck as e:
+            res['error'] = 'SolverStuck: %s' % e
+            res['stuck'] = True
         except (core.HarnessError, Inconclusive, solve.SolverDisagreement, NotImplementedError, state.UnexpectedFork, TimeoutError) as e:
             res['error'] = '%s: %s' % (type(e).__name__, e)
             res['traceback'] = traceback.format_exc(limit=6)
@@ -259,6 +262,8 @@ def _worker_loop(conn):
             conn.send(res)
         except Exception:
             return
+        if res.get('stuck'):
+            os._exit(0)          # a z3 thread is still running inside this process: do not reuse it
 
 
 def _run_pool(tasks, jobs, t0):
